@@ -17,10 +17,32 @@ fn text(max: usize, for_list: bool) -> BoxedStrategy<String> {
     vec(prop_oneof![8 => prop::sample::select(ascii), 1 => prop::sample::select(uni)], 0..=max).prop_map(|v| v.into_iter().collect()).boxed()
 }
 
+/// a long run of printable text (no structural characters): lengths around the sizes at which a reader that works in pieces
+/// of 4 KiB, 8 KiB or 64 KiB changes from one piece to the next, and free lengths up to 20 000
+fn long_text() -> BoxedStrategy<String> {
+    (prop_oneof![3 => 4080usize..4110, 1 => 8180usize..8200, 1 => 1000usize..20_000, 1 => 65_530usize..65_540], any::<u64>())
+        .prop_map(|(n, seed)| {
+            let alpha = b"abcdefghijklmnopqrstuvwxyzABCDEFGHIJKLMNOPQRSTUVWXYZ0123456789 _-.:/\\[]{}()!?*+=&%$#@'\"";
+            let mut x = seed;
+            let mut s = String::with_capacity(n);
+            while s.len() < n {
+                x = util::splitmix64(x);
+                for k in 0..8 {
+                    if s.len() < n {
+                        s.push(alpha[((x >> (8 * k)) & 0xff) as usize % alpha.len()] as char);
+                    }
+                }
+            }
+            s
+        })
+        .boxed()
+}
+
 fn key() -> BoxedStrategy<String> {
     prop_oneof![
-        3 => prop::sample::select(vec!["Language", "Region", "UPnP", "Port", "ScreenLeft", "K", ""]).prop_map(|s| s.to_string()),
-        2 => text(12, false),
+        90 => prop::sample::select(vec!["Language", "Region", "UPnP", "Port", "ScreenLeft", "K", ""]).prop_map(|s| s.to_string()),
+        60 => text(12, false),
+        1 => long_text(),
     ]
     .boxed()
 }
@@ -33,7 +55,7 @@ pub struct CfgCase {
 }
 
 fn cfg_strategy(_: &Ctx) -> BoxedStrategy<CfgCase> {
-    (vec((prop_oneof![1 => Just("Version".to_string()), 4 => text(20, false)], prop_oneof![1 => Just(vec![]), 4 => vec((key(), text(16, false)), 0..=8)]), 0..=8), vec((key(), text(10, false)), 0..=8), vec(prop_oneof![1 => key(), 1 => text(20, false)], 0..4))
+    (vec((prop_oneof![20 => Just("Version".to_string()), 80 => text(20, false), 1 => long_text()], prop_oneof![1 => Just(vec![]), 4 => vec((key(), prop_oneof![40 => text(16, false), 1 => long_text()]), 0..=8)]), 0..=8), vec((key(), prop_oneof![30 => text(10, false), 1 => long_text()]), 0..=8), vec(prop_oneof![1 => key(), 1 => text(20, false)], 0..4))
         .prop_map(|(mut categories, edits, probes)| {
             // distinct category names
             let mut seen = std::collections::HashSet::new();
@@ -151,6 +173,10 @@ fn prop_cfg(c: &CfgCase, ctx: &Ctx) -> PResult {
         ctx.class("cfg:duplicate-key");
     }
     ctx.classf(format!("cfg:categories:{}", model.len().min(5)));
+    let longest = c.categories.iter().map(|c| c.0.len() + 2).chain(c.categories.iter().flat_map(|c| c.1.iter().map(|k| k.0.len() + 1 + k.1.len()))).chain(c.edits.iter().map(|e| e.1.len())).max().unwrap_or(0);
+    if longest >= 1000 {
+        ctx.classf(format!("cfg:longest-line:{}", if longest < 4000 { "1000-3999" } else if longest < 4200 { "~4096" } else if longest < 8100 { "4200-8099" } else if longest < 8300 { "~8192" } else if longest < 65_000 { "8300-64999" } else { "~65536" }));
+    }
     if model.len() >= 2 && has_empty && dup && effective >= 1 {
         ctx.nontrivial(&canon);
         if ctx.want_sample() {
